@@ -144,6 +144,7 @@ class Producer(object):
         self._item_source = item_source
         self._item_queue = item_queue
         self._running = False
+        self._stop_requested = False
 
     @asyncio.coroutine
     def process_one(self):
@@ -156,7 +157,9 @@ class Producer(object):
 
     @asyncio.coroutine
     def process(self):
-        self._running = True
+        # A stop may have been requested before this coroutine's first step.
+        self._running = not self._stop_requested
+        self._stop_requested = False
 
         while self._running:
             item = yield from self.process_one()
@@ -171,6 +174,8 @@ class Producer(object):
         if self._running:
             _logger.debug('Producer stopping.')
             self._running = False
+        else:
+            self._stop_requested = True
 
 
 class PipelineState(enum.Enum):
